@@ -87,6 +87,8 @@ type Corpus struct {
 	n      int
 	Tag    string
 	Now    func() time.Time
+	// NextPAL, if set, makes the next ExtendOn transaction a private one with this (opaque) participant list.
+	NextPAL dag.EncryptedPAL
 }
 
 // NewCorpus makes a corpus with a few signing keys.
@@ -485,7 +487,13 @@ func (c *Corpus) ExtendOn(view []*CTx, label string) *CTx {
 		}
 	}
 	payload := []byte(fmt.Sprintf("%s-%s-payload-%d", c.Tag, label, c.n))
-	return c.SignValid(prevs, payload, "foo/bar", c.Keys[c.Choose(label+" key", len(c.Keys))], nil)
+	pal := c.NextPAL
+	c.NextPAL = nil
+	t := c.SignValid(prevs, payload, "foo/bar", c.Keys[c.Choose(label+" key", len(c.Keys))], pal)
+	if pal != nil {
+		t.Payload = nil // a private transaction of other parties: nobody here has its payload
+	}
+	return t
 }
 
 // SignWith builds a transaction through the repository's own constructor and signer with full
